@@ -634,6 +634,200 @@ def sched_curve(curve, nthreads, bound, acc, only_prefix=None, max_exec=None, fu
     return n, outcomes
 
 
+def _glue_workloads_names():
+    return ["IntegerGMP", "IntegerCustom", "IntegerNative", "RSA-sign", "DSA-sign", "ECDSA-sign", "EdDSA-sign", "AES-GCM", "AES-CCM",
+            "AES-EAX", "AES-OCB", "AES-SIV", "hashes", "MACs", "SP800-185", "KDF", "OAEP"]
+
+
+# ---- Python-level schedules over the library's Python glue: two threads, each with objects of its own ------------------
+def _glue_workloads():
+    """name -> (files whose every line is a scheduling point, thread body A, thread body B); bodies return a printable value"""
+    from ..keys import rsa_key, dsa_key
+    W = {}
+    V1, V2 = (1 << 70) + 0x1234567890ABCDEF, (1 << 68) + 0xFEDCBA0987654321
+
+    def gmp(v, e, m):
+        def body():
+            from Crypto.Math._IntegerGMP import IntegerGMP as K
+            x = K(v)
+            y = pow(x, e, m)
+            x *= 3
+            return "%x,%x,%s" % (int(y), int(x), x.to_bytes(12).hex())
+        return body
+    W["IntegerGMP"] = (["_IntegerGMP.py"], gmp(V1, 65537, (1 << 255) - 19), gmp(V2, 3, (1 << 127) - 1))
+
+    def custom(v, e, m):
+        def body():
+            from Crypto.Math._IntegerCustom import IntegerCustom as K
+            x = K(v)
+            return "%x,%s" % (int(pow(x, e, m)), K._mult_modulo_bytes(K(v), K(v + 2), K(m)).hex()[:16])
+        return body
+    W["IntegerCustom"] = (["_IntegerCustom.py", "_IntegerNative.py"], custom(V1, 65537, (1 << 255) - 19), custom(V2, 3, (1 << 127) - 1))
+
+    def native(v, m):
+        def body():
+            from Crypto.Math._IntegerNative import IntegerNative as K
+            x = K(v)
+            return "%x,%x" % (int(K(v % 1000003).inverse(1000003)), int(K.jacobi_symbol(K(v % 10007), K(10007))))
+        return body
+    W["IntegerNative"] = (["_IntegerNative.py", "_IntegerBase.py"], native(V1, 0), native(V2, 0))
+
+    def rsa(bits, msg):
+        def body():
+            from Crypto.Signature import pkcs1_15
+            from Crypto.Hash import SHA256
+            return pkcs1_15.new(rsa_key(bits)).sign(SHA256.new(msg)).hex()[:32]
+        return body
+    W["RSA-sign"] = (["PublicKey/RSA.py", "pkcs1_15.py"], rsa(1024, b"a"), rsa(1025, b"b"))
+
+    def dsa(msg):
+        def body():
+            from Crypto.Signature import DSS
+            from Crypto.Hash import SHA256
+            return DSS.new(dsa_key(1024), "deterministic-rfc6979").sign(SHA256.new(msg)).hex()[:32]
+        return body
+    W["DSA-sign"] = (["PublicKey/DSA.py", "Signature/DSS.py"], dsa(b"a"), dsa(b"b"))
+
+    def ecdsa(curve, d, msg):
+        def body():
+            from Crypto.PublicKey import ECC
+            from Crypto.Signature import DSS
+            from Crypto.Hash import SHA256
+            k = ECC.construct(curve=curve, d=d)
+            return DSS.new(k, "deterministic-rfc6979").sign(SHA256.new(msg)).hex()[:32]
+        return body
+    W["ECDSA-sign"] = (["PublicKey/ECC.py", "PublicKey/_point.py"], ecdsa("p256", 99, b"a"), ecdsa("p256", 100, b"b"))
+
+    def eddsa_(seed, msg):
+        def body():
+            from Crypto.PublicKey import ECC
+            from Crypto.Signature import eddsa
+            return eddsa.new(ECC.construct(curve="ed25519", seed=seed), "rfc8032").sign(msg).hex()[:32]
+        return body
+    W["EdDSA-sign"] = (["Signature/eddsa.py", "PublicKey/_edwards.py"], eddsa_(bytes(32), b"a"), eddsa_(bytes([1]) * 32, b"b"))
+
+    def aead(mode, key, msg):
+        def body():
+            from Crypto.Cipher import AES
+            m = getattr(AES, "MODE_" + mode)
+            kw = {"nonce": bytes(12 if mode in ("GCM", "CCM", "OCB") else 16)}
+            c = AES.new(key, m, **kw)
+            c.update(b"hdr" + msg[:3])
+            ct, tag = c.encrypt_and_digest(msg)
+            return (ct + tag).hex()
+        return body
+    for mode, f in (("GCM", "_mode_gcm.py"), ("CCM", "_mode_ccm.py"), ("EAX", "_mode_eax.py"), ("OCB", "_mode_ocb.py"), ("SIV", "_mode_siv.py")):
+        W["AES-" + mode] = ([f], aead(mode, K16[0] if mode != "SIV" else K32[0], bytes(range(20))), aead(mode, K16[1] if mode != "SIV" else K32[1], bytes(range(7, 24))))
+
+    def hashes(which, msg):
+        def body():
+            from Crypto.Hash import SHA256, SHA3_256, SHAKE128, BLAKE2b, HMAC, CMAC, KMAC128, TupleHash128, KangarooTwelve, cSHAKE128
+            from Crypto.Cipher import AES
+            if which == 1:
+                out = [SHA256.new(msg).hexdigest()[:8], SHA3_256.new(msg).hexdigest()[:8], SHAKE128.new(msg).read(4).hex(),
+                       BLAKE2b.new(data=msg, digest_bytes=16, key=b"k").hexdigest()[:8]]
+            elif which == 2:
+                out = [HMAC.new(b"k" * 20, msg, SHA256).hexdigest()[:8], CMAC.new(bytes(16), msg, ciphermod=AES).hexdigest()[:8]]
+            else:
+                out = [KMAC128.new(key=b"k" * 16, data=msg, mac_len=16).hexdigest()[:8], TupleHash128.new().update(msg, msg[:2]).hexdigest()[:8],
+                       cSHAKE128.new(data=msg, custom=b"c").read(4).hex()]
+            return ",".join(out)
+        return body
+    W["hashes"] = (["Hash/SHA256.py", "Hash/SHA3_256.py", "Hash/SHAKE128.py", "Hash/BLAKE2b.py"], hashes(1, bytes(range(100))), hashes(1, bytes(range(50, 250))))
+    W["MACs"] = (["Hash/HMAC.py", "Hash/CMAC.py"], hashes(2, bytes(range(100))), hashes(2, bytes(range(50, 250))))
+    W["SP800-185"] = (["Hash/KMAC128.py", "Hash/TupleHash128.py", "Hash/KangarooTwelve.py", "Hash/cSHAKE128.py", "Hash/TurboSHAKE128.py"],
+                      hashes(3, bytes(range(100))), hashes(3, bytes(range(50, 250))))
+
+    def kdf(pw):
+        def body():
+            from Crypto.Protocol.KDF import PBKDF2, HKDF, scrypt, bcrypt
+            from Crypto.Hash import SHA256
+            return ",".join([PBKDF2(pw, b"salt" * 2, 20, 2, hmac_hash_module=SHA256).hex()[:8], HKDF(pw, 20, b"s", SHA256).hex()[:8],
+                             ])
+        return body
+    W["KDF"] = (["Protocol/KDF.py"], kdf(b"password-one"), kdf(b"another password"))
+
+    def oaep(bits, msg):
+        def body():
+            from Crypto.Cipher import PKCS1_OAEP
+            from ..keys import Stream
+            k = rsa_key(bits)
+            ct = PKCS1_OAEP.new(k, randfunc=Stream("oaep%d" % bits)).encrypt(msg)
+            return ct.hex()[:16] + PKCS1_OAEP.new(k).decrypt(ct).hex()
+        return body
+    W["OAEP"] = (["Cipher/PKCS1_OAEP.py", "Signature/pss.py"], oaep(1024, b"message A"), oaep(1025, b"msg B"))
+
+    return W
+
+
+def glue_schedules(name, bound, acc, only_prefix=None, max_exec=None):
+    files, fa, fb = _glue_workloads()[name]
+    solo = [repr(fa()), repr(fb())]
+    if [repr(fa()), repr(fb())] != solo:
+        acc.error("python glue workload %s is not deterministic when run alone" % name)
+        return 0, {}
+    sched = pysched.Scheduler({(f, "*") for f in files})
+    state = {"fail": None, "points": 0}
+    outcomes = {}
+
+    def check(ex):
+        acc.count("traces")
+        acc.count("states", len(ex.points))
+        acc.count("transitions", len(ex.points))
+        state["points"] = max(state["points"], len(ex.points))
+        res = [repr(ex.results.get(t)) for t in range(2)]
+        problem = None
+        if ex.deadlock:
+            problem = "deadlock"
+        elif ex.errors:
+            problem = "exception " + "; ".join("thread %d: %s" % kv for kv in sorted(ex.errors.items()))
+        elif res != solo:
+            problem = "results differ from the results of each thread alone (%s vs %s)" % (res, solo)
+        okey = "ok" if problem is None else problem.split(" ")[0]
+        outcomes[okey] = outcomes.get(okey, 0) + 1
+        if problem and state["fail"] is None:
+            ch = list(ex.choices)
+            while ch and ch[-1] == 0:
+                ch.pop()
+            state["fail"] = (ch, problem)
+    mk = lambda: [fa, fb]
+    from Crypto.PublicKey import _point
+    real_lock = _point._Curves.curves_lock
+    _point._Curves.curves_lock = pysched.SchedRLock(sched)      # the library's only lock must be visible to the scheduler
+    try:
+        if only_prefix is not None:
+            check(sched.run(mk(), only_prefix))
+            n, capped = 1, False
+        else:
+            n, capped = pysched.explore(sched, mk, bound, check, max_executions=max_exec)
+    finally:
+        _point._Curves.curves_lock = real_lock
+    if capped:
+        acc.cap("python-level schedules over the glue code of %s capped at %d executions (bound %d)" % (name, max_exec, bound))
+    acc.seen("glue_runs", (name, bound, n, state["points"]))
+    if state["points"] < 10:
+        acc.error("python glue workload %s: only %d scheduling points (trace filter does not match the library files)" % (name, state["points"]))
+    if state["fail"]:
+        choices, problem = state["fail"]
+        acc.violation("C19/py-schedule/%s/%s" % (name, problem.split(" ")[0]),
+                      "two threads, each with objects of its own, in the Python code of %s: schedule %s: %s" % (name, choices, problem[:600]),
+                      {"part": "pyglue", "name": name, "choices": choices}, size=len(choices))
+    return n, outcomes
+
+
+def pyglue_worker(shards):
+    acc = Acc()
+    for name, limit, mx in shards:
+        # two preemptions where the execution is short enough for the quadratic number of schedules, one otherwise
+        probe = Acc()
+        glue_schedules(name, 1, probe, only_prefix=[])
+        pts = max([r[3] for r in probe.distinct.get("glue_runs", ())] or [0])
+        bound = 2 if pts <= limit else 1
+        n, outcomes = glue_schedules(name, bound, acc, max_exec=mx)
+        acc.sample({"part": "python-glue-schedules", "workload": name, "preemption_bound": bound, "executions": n, "outcomes": outcomes})
+    return acc
+
+
 def pysched_worker(shards):
     acc = Acc()
     for curve, nthreads, bound, mx, full in shards:
@@ -811,6 +1005,7 @@ def run(ctx):
         for c in ("p256", "ed448", "curve448"):
             sh.append([(c, 2, 2, 40000, True)])
     ctx.pmap(pysched_worker, sh)
+    ctx.pmap(pyglue_worker, [[(nme, 100 if q else 320, None)] for nme in _glue_workloads_names()])
     # ---- part 4
     if not os.path.isfile(SHIM):
         r = subprocess.run(["make", "-s", "-C", os.path.dirname(SHIM)], stdout=subprocess.PIPE, stderr=subprocess.STDOUT)
@@ -833,6 +1028,7 @@ def run(ctx):
             build.cleanup(tree)
     a = ctx.acc
     ctx.require(len(a.distinct.get("pairs", ())) >= 60, "fewer than 60 object pairs interleaved")
+    ctx.require(len(a.distinct.get("glue_runs", ())) >= len(_glue_workloads_names()), "python glue schedules: not every workload was explored")
     ctx.require(len(a.distinct.get("native_workloads", ())) >= 45, "fewer than 45 native workloads explored")
     ctx.require(len({o[2][:1] for o in a.distinct.get("lock_orders", ())}) >= 2,
                 "python-level schedules never varied which thread takes the registry lock first")
@@ -843,6 +1039,9 @@ def run(ctx):
         "copy_classes": len(a.distinct.get("copyclasses", ())), "copy_history_depth": depth,
         "argument_monitor_calls": len(a.distinct.get("argcalls", ())),
         "python_schedule_runs": sorted([list(x) for x in a.distinct.get("sched_runs", ())]),
+        "python_glue_schedule_runs": {"what": "two threads with objects of their own; every line of the named library files is a scheduling point; "
+                                              "[workload, preemption bound, executions, points per execution]",
+                                      "runs": sorted([list(x) for x in a.distinct.get("glue_runs", ())])},
         "native_workloads": len(a.distinct.get("native_workloads", ())),
         "native_accesses_classified": a.n.get("native_accesses_classified", 0),
         "native_workloads_with_conflicts": sorted(w for w, c in a.distinct.get("native_conflicts", ()) if c),
@@ -866,5 +1065,7 @@ def replay(case, acc):
         acc.merge(args_worker(0))
     elif p == "pysched":
         sched_curve(case["curve"], case["nthreads"], 0, acc, only_prefix=case["choices"], full=case.get("full", False))
+    elif p == "pyglue":
+        glue_schedules(case["name"], 0, acc, only_prefix=case["choices"])
     elif p == "native":
         native_replay(case, acc)
